@@ -34,7 +34,8 @@ MANIFEST = {
             "object_refs form (no objects member); outside: ObservedData given an objects dictionary of observables (the 2.0 "
             "form and the deprecated 2.1 form)); "
             "the two encoders differ exactly on defaulted optionals; sort_keys/indent/compact/pretty are permutations of "
-            "members (same JSON value); pretty keeps the top-level class order. Model tied to /repo by regenerated class "
+            "members (same JSON value); pretty keeps the top-level class order and for constructed objects that order is the "
+            "class's specification order followed by the sorted custom names (pretty_toplevel_spec_order_partial). Model tied to /repo by regenerated class "
             "tables and a correspondence run of serialize under every option; the property itself is evaluated on the real "
             "library for generated objects of every class under sampled option sets.",
     "design_ref": "DESIGN.md 6/C02,C03,C04,C01 (T C01)",
@@ -276,6 +277,8 @@ def gen_cases(run, per_class):
                 # the constructor's custom_properties= argument (legacy spelling of custom properties)
                 o["custom_properties"] = {n: copy.deepcopy(r.choice(CUSTOM_VALUES)) for n in r.sample(CUSTOM_NAMES21, 2)
                                           if n not in o}
+            if route == "construct" and cid.endswith("/Bundle") and isinstance(o.get("objects"), list) and r.random() < 0.5:
+                route = "construct_positional"      # Bundle(*members, **rest)
             case = {"route": route, "cid": cid, "data": o, "allow": custom or r.random() < 0.15,
                     "opts": pick_opts(r, full=(i % 5 == 0))}
             if r.random() < 0.12:
